@@ -25,7 +25,7 @@ theorem nonput_nFanout (conf : Conf) (c : Chan) (op : Nsq.Model.Chan.Op) (id : N
   | scanInFlight t => exact foldl_count _ _ (timeoutOne_count _ hE (fun _ _ => rfl)) _ _
   | scanDeferred t => exact foldl_count _ _ (deferDueOne_count _ hE (fun _ => rfl)) _ _
   | _ =>
-    simp only [Nsq.Model.Chan.step]
+    simp only [Nsq.Model.Chan.step, doDeliver]
     repeat' split
     all_goals first
       | rfl
@@ -668,6 +668,8 @@ theorem nstep_inv {s : State} (hi : NInv s) (op : Nsq.Model.ChanNsqd.Op) (hapi :
   | fin k id => exact ninv_connStep hi k _ (fun _ h => by cases h) (fun _ _ h => by cases h)
   | finChan k id => exact ninv_connStep hi k _ (fun _ h => by cases h) (fun _ _ h => by cases h)
   | finClient k => exact ninv_connStep hi k _ (fun _ h => by cases h) (fun _ _ h => by cases h)
+  | guard k => exact ninv_connStep hi k _ (fun _ h => by cases h) (fun _ _ h => by cases h)
+  | deliverArmed k id now => exact ninv_connStep hi k _ (fun _ h => by cases h) (fun _ _ h => by cases h)
   | req k id d now => exact ninv_connStep hi k _ (fun _ h => by cases h) (fun _ _ h => by cases h)
   | touch k id now => exact ninv_connStep hi k _ (fun _ h => by cases h) (fun _ _ h => by cases h)
   | scanInFlight t c tm => exact ninv_chanStep hi t c _ (fun _ h => by cases h) (fun _ _ h => by cases h)
